@@ -1028,6 +1028,8 @@ class Interp:
                 env_set_existing(env, target.value.id, self.list_set(obj, idx.t, v))
             elif isinstance(obj, VObject) and obj.cls == 'dict':
                 obj.attrs[self.dict_key(idx)] = v
+            elif isinstance(obj, VObject) and obj.cls == 'posmap':
+                self.world.posmap_store(self, obj, idx, v)
             else:
                 raise Unsupported('subscript assignment on ' + obj.kind)
         else:
